@@ -134,12 +134,14 @@ def _wrap_measurement(m, cls_name, data, sidx, rec, rng):
     return sub(data, 0.1)
 
 
-def make_meas_data(m, cls_name, stamps, pva, rng):
+def make_meas_data(m, cls_name, stamps, pva, rng, far=False):
     pd = m["pd"]
     st = np.asarray(stamps, dtype=float)
     n = len(st)
     if cls_name == "Position":
         d = np.tile([pva.lat, pva.lon, pva.alt], (n, 1)) + rng.randn(n, 3) * [1e-5, 1e-5, 1.0]
+        if far:          # a coarse initial position: fixes several kilometres (and tens of metres in height) away
+            d += [0.04, -0.06, 35.0]
         cols = ['lat', 'lon', 'alt']
     elif cls_name == "NedVelocity":
         d = np.tile([pva.VN, pva.VE, 0.0], (n, 1)) + 0.1 * rng.randn(n, 3)
@@ -175,7 +177,7 @@ def run_task(m, task):
     gm, am = make_models(m, task["models"], rng)
     meas_objs = []
     for sidx, (cls_name, stamps) in enumerate(task["meas"]):
-        meas_objs.append(_wrap_measurement(m, cls_name, make_meas_data(m, cls_name, stamps, pva, rng), sidx, rec, rng))
+        meas_objs.append(_wrap_measurement(m, cls_name, make_meas_data(m, cls_name, stamps, pva, rng, far=bool(task.get("far"))), sidx, rec, rng))
     if not meas_objs and task["form"] == "none":
         meas_arg = None
     else:
